@@ -45,6 +45,8 @@ func main() {
 		os.Exit(runDriveConc(os.Args[2:]))
 	case "drive-gw":
 		os.Exit(runDriveGW(os.Args[2:]))
+	case "sched": // sched <prop> <npages> <behaviours.ndjson> <result-json>
+		os.Exit(runSched(os.Args[2:]))
 	case "c05-cli":
 		os.Exit(runC05CLI(os.Args[2:]))
 	case "serve":
